@@ -406,7 +406,7 @@ def r4_inert(a, tier):
         'C17.R4',
         'in ParserEngine.constant every safe_eval(e, c) call sits in the true-branch of is_eval_safe(e, c) on the '
         'same arguments (a rejected expression leaves the text unchanged), and the evaluation is enclosed by a '
-        'handler for Exception that raises FailedSemantics; alert evaluates its message through constant',
+        'handler for Exception that raises a TatSu failure (FailedSemantics or newexcept(...)); alert evaluates its message through constant',
         floor=2,
     )
     fn = a.p.func('tatsu.contexts.engine.ParserEngine.constant')
@@ -433,7 +433,8 @@ def r4_inert(a, tier):
                 for h in par.handlers:
                     names = [] if h.type is None else [dotted(t) for t in (h.type.elts if isinstance(h.type, ast.Tuple) else [h.type])]
                     catches_all = h.type is None or any(n.split('.')[-1] in ('Exception', 'BaseException') for n in names)
-                    raises_fs = any(isinstance(x, ast.Raise) and x.exc is not None and 'FailedSemantics' in norm(x.exc)
+                    raises_fs = any(isinstance(x, ast.Raise) and x.exc is not None
+                                    and ('FailedSemantics' in norm(x.exc) or 'newexcept' in norm(x.exc))
                                     for x in ast.walk(h))
                     if catches_all and raises_fs:
                         in_try = True
@@ -443,7 +444,7 @@ def r4_inert(a, tier):
             rep.fail(fn.qualname, f'unguarded:{norm(ev)}', f'`{norm(ev)}` is not inside `if is_eval_safe({", ".join(args)})`: '
                      f'a rejected expression raises instead of staying uninterpreted text', f'{fn.module.relpath}:{ev.lineno}')
         if not in_try:
-            rep.fail(fn.qualname, f'unhandled:{norm(ev)}', f'`{norm(ev)}` is not enclosed by `except Exception` -> FailedSemantics',
+            rep.fail(fn.qualname, f'unhandled:{norm(ev)}', f'`{norm(ev)}` is not enclosed by `except Exception` -> FailedSemantics/newexcept',
                      f'{fn.module.relpath}:{ev.lineno}')
     al = a.p.func('tatsu.contexts.context.ParseContext.alert')
     via_constant = any(isinstance(n, ast.Call) and dotted(n.func) in ('self.constant', 'self._constant') for n in walk_no_defs(al.node))
